@@ -28,6 +28,7 @@ pub type LehmerMatrix = Matrix;
 impl Matrix {
 //@ import lehmer IDENTITY
 //@ import lehmer apply
+//@ import lehmer from
 }
 //@ include lib/sgcd.rs
 
